@@ -225,4 +225,16 @@ REG.update({
         "assumptions": ["the exchange-rate controller itself does not move in these runs (fewer than TokenChoiceSetSize prime blocks): rising/falling trajectories are not exercised", "round trips at a fixed rate and the dust rule are bounded only through the per-leg upper bounds",
                         "the rate applied to conversions confirmed by prime block P is read from the header of P's child prime block (the protocol's own record), not re-derived"],
     },
+    "C14": {
+        "level": "exploration",
+        "tests": [{"pkg": "./chainsim", "run": "TestC14", "quick": 320, "thorough": 25000, "chunk": 20}],
+        "rule": S5_RULE + ("Monitors on every object the run produces: each block view that crosses the simulated wire (zone, region, prime; block and header views) is encoded with the real protobuf codec, decoded at the receiver's location and re-encoded - equal hash, header hash, seal hash, body, identical bytes; "
+                 "every block is read back from each context's database through rawdb (hash, header hash, body sizes, receipts count); every block goes through MarshalJSON/UnmarshalJSON and through the JSON-RPC server form (RPCMarshalWorkObject v1 and v2) decoded as the client library does; "
+                 "every transaction and outbound ETX of every block (Quai, Qi with 1..3 inputs, conversions, coinbases with every lockup byte and data layout, claims, contract creation with access list) round-trips through protobuf and JSON with equal hash and identical re-encoding; "
+                 "a block rewritten in one consensus field (byzantine rows of C07/C08/C09) never shares the hash of the honest candidate."),
+        "expect_probes": ["reorg", "byz.tx-hash", "byz.parent-hash"],
+        "components": S5_COMPONENTS,
+        "assumptions": ["objects are those the node and the harness generate in runs; not all optional-field presence combinations (pure codec algebra over arbitrary inputs is outside this technique)",
+                        "termini, pending-ETX bundles and p2p request/response frames are exercised only indirectly (through the dom/sub calls and the node's own database reads)", "RLP of ETXs in the ETX trie is covered by C04's queue check only"],
+    },
 })
